@@ -6,7 +6,7 @@ from lib.coqterm import cbytes, cbool, copt, cZ, cN, clist, cpair
 
 ID = "C33"
 QUICK_N = 3000
-THOROUGH_N = 40000
+THOROUGH_N = 24000
 SHARD = 300
 COQ_PRELUDE = "From Coq Require Import NArith ZArith.\nFrom MV Require Import Model.Url.\n"
 RULE = ("9% scheme-flip histories (url assignments that keep host and port but change the scheme, default and non-default ports, Host header / authority eliding or showing the port, HTTP/1 and HTTP/2, names, IPv6, IDN); 46% edit histories (1-5 of url/host/host-as-bytes/port assignments) on a real Request built from generated "
